@@ -139,7 +139,7 @@ pub fn gen_profile(name: &str, rng: &mut Rng) -> (GenCfg, bool, Option<VolCfg>) 
                 bps: 512,
                 spc: *rng.pick(&[1u8, 1, 2]),
                 nfats: 1 + rng.below(2) as u8,
-                root_entries: *rng.pick(&[16u16, 16, 32]),
+                root_entries: *rng.pick(&[16u16, 16, 32, 24, 17]),
                 clusters: if fat == 12 { rng.range(4, 30) as u32 } else { 4085 },
                 extra: 0,
                 garbage: rng.chance(1, 2),
